@@ -483,6 +483,7 @@ let md5_name (body : M.z list) : M.z list =
   List.iteri (fun i z -> Bytes.set b i (Char.chr ((int_of_z z) land 255))) body;
   digits_of_string (Digest.to_hex (Digest.bytes b))
 
+let name_of_string (s : string) : M.z list = List.init (String.length s) (fun i -> z_of_int (Char.code s.[i]))
 let string_of_name (n : M.z list) = String.concat "" (List.map (fun z -> String.make 1 (Char.chr ((int_of_z z) land 255))) n)
 
 type snap = {
@@ -747,6 +748,13 @@ let suite_stage t v =
                           || List.exists (fun (wn, we, _, wm) -> wn = n && we = "wait" && (h = "" || wm = h)) isn.sfiles in
                  if not ok then
                    oracle v "clean_removed_undelivered_partial"
+                     (not (List.exists (fun (n', e', _, _) -> n' = n && e' = "part") msn.sfiles));
+                 (* a partial younger than the cleaning threshold belongs to a transfer that is
+                    under way (it may just have been created by Prepare): never removed *)
+                 let young = (match M.alookup (name_of_string n) before.M.parts with
+                              | Some sf -> not sf.M.sf_old | None -> false) in
+                 if young then
+                   oracle v "clean_removed_partial_of_running_transfer"
                      (not (List.exists (fun (n', e', _, _) -> n' = n && e' = "part") msn.sfiles))
                end
              end) mpre.sfiles;
